@@ -341,7 +341,7 @@ def execute(plan, hooks=None):
             oracle_c01(plan, world, cl, obs, inflight, seqmon)
         elif prop == "C02":
             oracle_c02(plan, world, cl, obs, nrec)
-    res["violations"] = [list(v) for v in world.violations]
+    scenario.finish(res, world, None)
     res["nsent"] = len(obs["sent"])
     return res
 
